@@ -41,6 +41,10 @@ func violatingTable() []violating {
 		s("date", strings.Repeat("1996-01-01", 30)), s("ip", strings.Repeat("1.", 200)), s("idcard", strings.Repeat("1", 257)),
 		s("required", ""), s("file", "DIR"), s("dir", "FILE"), s("file", "MISSING"), s("dir", "MISSING"),
 		{item: "re='^a$'", t: desc.Scalar("string"), v: desc.Str("b"), re: "^a$"},
+		// alternation: the pattern itself contains the character that starts a message
+		{item: "re='^(yes|no)$'", t: desc.Scalar("string"), v: desc.Str("maybe"), re: "^(yes|no)$"},
+		{item: "re='^(是|否)$'", t: desc.Scalar("string"), v: desc.Str("x"), re: "^(是|否)$"},
+		{item: "re='^a,b|c$'", t: desc.Scalar("string"), v: desc.Str("zz"), re: "^a,b|c$"},
 		{item: "to=1~2", t: desc.Scalar("int"), v: desc.V{I: 5}}, {item: "ge=5", t: desc.Scalar("uint8"), v: desc.V{U: 2}}, {item: "eq=2", t: desc.Scalar("float64"), v: desc.V{F: 2.5}},
 		{item: "in=(1/2)", t: desc.Scalar("int64"), v: desc.V{I: 3}}, {item: "int", t: desc.Scalar("float32"), v: desc.V{F: 1.5}}, {item: "float", t: desc.Scalar("int"), v: desc.V{I: 3}},
 		{item: "required", t: desc.Scalar("int"), v: desc.V{}}, {item: "required", t: desc.Slice(desc.Scalar("int")), v: desc.V{}},
@@ -56,7 +60,7 @@ var msgCJK = []rune("必填项请输入正确的值手机号长度一\u4e00\u9fa
 var msgOtherScripts = []rune("テストéß한글😀\u4dff\u9fa6\u4000\u9fff\u3400") // no character in U+4E00..U+9FA5 (the neighbours just outside included): English label
 
 func genMsg(t *rapid.T) (msg, class string) {
-	class = rapid.SampledFrom([]string{"ascii", "ascii", "cjk", "cjk", "mixed", "other-script", "one-byte", "one-rune-cjk", "quoted-comma", "with-equals", "double-quoted-words"}).Draw(t, "msgClass")
+	class = rapid.SampledFrom([]string{"ascii", "ascii", "cjk", "cjk", "mixed", "other-script", "one-byte", "one-rune-cjk", "quoted-comma", "with-equals", "double-quoted-words", "long-ascii-then-cjk"}).Draw(t, "msgClass")
 	build := func(pool []rune, lo, hi int) string {
 		n := rapid.IntRange(lo, hi).Draw(t, "msgLen")
 		var b strings.Builder
@@ -82,6 +86,12 @@ func genMsg(t *rapid.T) (msg, class string) {
 		msg = "'" + build(msgASCII, 1, 4) + "," + build(msgCJK, 1, 3) + "'"
 	case "with-equals":
 		msg = build(msgASCII, 1, 3) + "=" + build(msgCJK, 0, 3) + build(msgASCII, 1, 3)
+	}
+	if class == "long-ascii-then-cjk" {
+		// a long text for developers followed by one for the end user: the first CJK character sits
+		// beyond the first 250 / 256 / 1000 bytes
+		n := rapid.SampledFrom([]int{100, 250, 253, 254, 255, 256, 257, 300, 1000, 5000}).Draw(t, "asciiPrefix")
+		msg = strings.Repeat("developer text ", n/15+1)[:n] + build(msgCJK, 1, 6)
 	}
 	if class == "double-quoted-words" {
 		// answer must be "yes", "no" or "maybe"  (single-quoted as a whole because of the commas)
